@@ -17,6 +17,7 @@ def shipped_params(cls, rnd, extreme=False):
     if cls == 'SIS_FixedRecovery': return {SIS.P_INFECTED: 0.25, SIS.P_INFECT: p(), SIS_FixedRecovery.T_INFECTED: rnd.choice([0.5, 1.0, 1.75, 2.5])}
     if cls == 'Opinion': return {Opinion.P_AFFECTED: 0.25, Opinion.P_AFFECT: p(), Opinion.P_STIFLE: p()}
     if cls == 'SIR_VariableInfection': return {SIR.P_INFECTED: 0.25, SIR.P_REMOVE: p()}
+    if cls == 'VarInfFixed': return {SIR.P_INFECTED: rnd.choice([0.25, 0.5]), SIR.P_REMOVE: 0.0, VarInfFixed.T: rnd.choice([0.25, 0.5, 1.0, 1.75])}
     if cls == 'SIvR': return {SIR.P_INFECTED: 0.25, SIR.P_INFECT: p(), SIR.P_REMOVE: p(), SIvR.EFFICACY: rnd.choice([0.0, 0.25, 0.5, 0.75, 1.0]),
                               SIvR.T_OFFSET: rnd.choice([0.0, 0.0, 0.5, 1.0])}
     if cls == 'Vaccinate': return {Opinion.P_AFFECTED: 0.25, Opinion.P_AFFECT: p(), Opinion.P_STIFLE: p(), Vaccinate.P_VACCINATE: rnd.choice([0.25, 0.5, 1.0])}
@@ -41,6 +42,27 @@ def rand_net(rnd, nmin=2, nmax=8, dens=None, kind=None):
     rnd.shuffle(edges)
     edges = [[a, b] if rnd.random() < 0.5 else [b, a] for a, b in edges]
     return nodes, edges
+
+
+class VarInfFixed(SIR_VariableInfection):
+    '''a user process: per-edge infectivities (one SingletonLocus per S-I edge) with a fixed infectious period realised by posted
+    events — stochastic events interleaved with posted events that empty the loci they were drawn from'''
+    T = 'vp.tInfected'
+    VP_POSTC = True
+
+    def build(self, params):
+        super().build(params)
+        self._tInfected = params[self.T]
+
+    def setUp(self, params):
+        super().setUp(params)
+        for n in self.compartment(self.INFECTED):
+            self.postEvent(self._tInfected, n, self.remove, name=self.REMOVED)
+
+    def infect(self, t, e):
+        super().infect(t, e)
+        (n, _) = e
+        self.postEvent(t + self._tInfected, n, self.remove, name=self.REMOVED)
 
 
 class DynamicSIR(SIR, AddDelete):
@@ -86,6 +108,7 @@ class FullAddDelete(CompartmentedAddDelete):
         d.removeNode(n)
 
 
+CLASSES['VarInfFixed'] = VarInfFixed
 ADCLASSES = dict(AddDelete=AddDelete, DynamicSIR=DynamicSIR, CompartmentedAddDelete=CompartmentedAddDelete, FullAddDelete=FullAddDelete)
 
 
@@ -221,6 +244,11 @@ def gen_shipped(rnd, classes=None, dyn=None, oracles=('clock', 'member', 'loci')
     return dict(procs=[dict(cls=cls, name=None, params=params)], seq='bare', dyn=dyn or rnd.choice(['sto', 'syn']), nodes=nodes,
                 edges=edges, maxT=maxT or rnd.choice([3.0, 6.0, 12.0]), seed=rnd.random(), specials=ps, pspecial=0.15,
                 oracles=list(oracles), preattr=(rnd.randrange(1 << 30) if rnd.random() < 0.25 else None), strlabels=rnd.random() < 0.2)
+
+
+def gen_varfix(rnd, dyn=None):
+    return gen_shipped(rnd, classes=['VarInfFixed'], dyn=dyn, oracles=('clock', 'member', 'loci', 'diagram', 'forest'),
+                       net=rand_net(rnd, 3, 7, kind=rnd.choice(['er', 'complete', 'star'])), maxT=rnd.choice([2.0, 4.0]))
 
 
 def gen_compfix(rnd, dyn=None):
@@ -420,7 +448,7 @@ RUNNERS = dict(ops=run_ops_case)
 DIAGRAMS = {
     'SIR': {('S', 'I'), ('I', 'R')}, 'SIS': {('S', 'I'), ('I', 'S')}, 'SIRS': {('S', 'I'), ('I', 'R'), ('R', 'S')},
     'SEIR': {('S', 'E'), ('E', 'I'), ('I', 'R')}, 'SIR_FixedRecovery': {('S', 'I'), ('I', 'R')}, 'SIS_FixedRecovery': {('S', 'I'), ('I', 'S')},
-    'SIR_VariableInfection': {('S', 'I'), ('I', 'R')}, 'Opinion': {('G', 'P'), ('P', 'T')}, 'SIvR': {('S', 'I'), ('I', 'R')}, 'Vaccinate': {('G', 'P'), ('P', 'T')},
+    'SIR_VariableInfection': {('S', 'I'), ('I', 'R')}, 'Opinion': {('G', 'P'), ('P', 'T')}, 'SIvR': {('S', 'I'), ('I', 'R')}, 'Vaccinate': {('G', 'P'), ('P', 'T')}, 'VarInfFixed': {('S', 'I'), ('I', 'R')},
 }
 
 
@@ -463,14 +491,14 @@ def oracle_diagram(d, ex, cur, t, p, name, e):
                         out = out or f"{cls}: node {n} was infected by event {name} on {e}, not through one of its edges"
                     elif prev.get(e[1]) not in _infectious(q) or not g.has_edge(e[0], e[1]):
                         out = out or f"{cls}: node {n} infected through {e} but {e[1]} was in {_short(q, prev.get(e[1]))} at that moment"
-                if cls in ('SIR_FixedRecovery', 'SIS_FixedRecovery'):
+                if cls in ('SIR_FixedRecovery', 'SIS_FixedRecovery', 'VarInfFixed'):
                     if arrow[0] == 'S': st['since'][(key, n)] = t
                     if arrow[0] == 'I':
                         t0 = st['since'].get((key, n), 0.0)
                         if t != t0 + q._tInfected:
                             out = out or f"{cls}: node {n} entered I at {t0} and left at {t}, configured time {q._tInfected}"
                         st['since'].pop((key, n), None)
-        if cls in ('SIR_FixedRecovery', 'SIS_FixedRecovery'):
+        if cls in ('SIR_FixedRecovery', 'SIS_FixedRecovery', 'VarInfFixed'):
             for n, c in now.items():
                 if c == q.INFECTED:
                     t0 = st['since'].get((key, n), 0.0)
@@ -478,7 +506,7 @@ def oracle_diagram(d, ex, cur, t, p, name, e):
                         out = out or f"{cls}: node {n} entered I at {t0} and is still infected at {t}, configured time {q._tInfected}"
         st['prev'][key] = now
         # transmission acts on every susceptible-infectious edge: rate of the infection event = p * number of such edges
-        if d.__class__.__mro__[1].__name__ == 'StochasticDynamics' and cls not in ('SIR_VariableInfection', 'Opinion', 'Vaccinate', 'SEIR'):
+        if d.__class__.__mro__[1].__name__ == 'StochasticDynamics' and cls not in ('SIR_VariableInfection', 'VarInfFixed', 'Opinion', 'Vaccinate', 'SEIR'):
             si = sum(1 for (a, b) in g.edges() if {now[a], now[b]} == {q.SUSCEPTIBLE, q.INFECTED})
             for (l, r, f, nm) in q.perElementEventRateDistribution(t) + q.fixedRateEventDistribution(t):
                 if nm == q.INFECTED and hasattr(l, 'name') and l.name().endswith('SI'):
